@@ -13,6 +13,7 @@ def run(c):
     # (a root that passed several frames); no model expectation: the trace specification decides
     cor = lc.run_exhaustive(c, ["corpus:structural"], "block-contents", orders=3)
     c.guard("corpus_atropos_of_two_frames", cor["total"].get("traced_atropos_of_two_frames", 0))
+    c.guard("corpus_older_fork_branch_deliveries", cor["total"].get("traced_blocks_delivering_an_older_fork_branch", 0))
     res = lc.run_profile(c, "c02", c.pick(20, 200), "block-contents")
     st = res["stats"]
     c.guard("blocks", st.get("blocks", 0))
